@@ -110,3 +110,17 @@ package bsupport
 //@           && ncalls("base.LogChunkMaker.WriteStream") - atentry(ncalls("base.LogChunkMaker.WriteStream")) == nstreams - atentry(nstreams)
 //@           && ncalls("base.LogProcessCounterSet.CountStream") - atentry(ncalls("base.LogProcessCounterSet.CountStream")) == nstreams - atentry(nstreams)
 //@           && ncalls("base.LogProcessCounterSet.CountChunk") - atentry(ncalls("base.LogProcessCounterSet.CountChunk")) == nchunks - atentry(nchunks)
+
+// flushing (on tick and at stop): every output's packer is asked for its buffered chunk and every chunk returned is counted
+//@ extern func (m base.LogChunkMaker) FlushBuffer() *base.LogChunk
+//@   flag counted
+//@   modifies everything
+//@   ghostset nchunks := nchunks + (result != nil ? 1 : 0)
+//@   ghostset nstreams := nstreams
+//@ func (worker *LogProcessingWorker) flushChunk()
+//@   property C19 C11 C01
+//@   flag nosafety noinfer
+//@   requires worker != nil
+//@   modifies everything
+//@   loop 1: step[one-flush-per-output-every-chunk-counted] ncalls("base.LogChunkMaker.FlushBuffer") == prev(ncalls("base.LogChunkMaker.FlushBuffer")) + 1
+//@           && ncalls("base.LogProcessCounterSet.CountChunk") - prev(ncalls("base.LogProcessCounterSet.CountChunk")) == nchunks - prev(nchunks)
